@@ -42,6 +42,60 @@ func router(l limits) *fox.Router {
 type Case struct {
 	Pattern []byte `json:"pattern"`
 	Lim     limits `json:"lim"`
+	// Big, when >0: the pattern is Big wildcards (shape BigShape) instead of Pattern
+	Big      int `json:"big,omitempty"`
+	BigShape int `json:"big_shape,omitempty"`
+}
+
+// bigPattern builds a pattern with n wildcards.
+func bigPattern(n, shape int) string {
+	switch shape {
+	case 1: // hostname parameters first (one per label), then path parameters
+		k := min(n, 100)
+		return strings.Repeat("{h}.", k-1) + "{h}" + strings.Repeat("/{p}", n-k) + "/"
+	case 2: // a catch-all at the end
+		return strings.Repeat("/{p}", n-1) + "/*{w}"
+	}
+	return strings.Repeat("/{p}", n)
+}
+
+// evalBig: the configured limit on the number of parameters at the width of its type (the default
+// and the largest configurable limit are 65535): a pattern with n wildcards is accepted exactly when
+// n <= limit, and an accepted route reports ParamsLen() == n.
+func evalBig(n, shape int, l limits) (string, string) {
+	limit := 65535
+	if l.MaxParams >= 0 {
+		limit = l.MaxParams
+	}
+	f := router(l)
+	pat := bigPattern(n, shape)
+	var rt *fox.Route
+	var err error
+	var pv any
+	func() {
+		defer func() { pv = recover() }()
+		rt, err = f.NewRoute(pat, h)
+	}()
+	desc := fmt.Sprintf("a pattern with %d wildcards (shape %d, %d bytes) under the parameter limit %d (%+v)", n, shape, len(pat), limit, l)
+	if pv != nil {
+		return "panic", fmt.Sprintf("NewRoute panicked (%v): %s", pv, desc)
+	}
+	if n > limit {
+		if err == nil {
+			return "accepts-invalid", fmt.Sprintf("accepted (ParamsLen()=%d): %s", rt.ParamsLen(), desc)
+		}
+		if !errors.Is(err, fox.ErrTooManyParams) || !errors.Is(err, fox.ErrInvalidRoute) {
+			return "wrong-error", fmt.Sprintf("rejected with %v, want ErrTooManyParams (an ErrInvalidRoute): %s", err, desc)
+		}
+		return "", ""
+	}
+	if err != nil {
+		return "rejects-valid", fmt.Sprintf("rejected (%v): %s", err, desc)
+	}
+	if rt.ParamsLen() != n {
+		return "wrong-params-len", fmt.Sprintf("ParamsLen() = %d: %s", rt.ParamsLen(), desc)
+	}
+	return "", ""
 }
 
 var h = func(c fox.Context) {}
@@ -288,7 +342,7 @@ func runGrammar(c *mc.Ctx, r *mc.Result) {
 // runBytes: crash-freedom and reference agreement on arbitrary bytes.
 func runBytes(c *mc.Ctx, r *mc.Result) {
 	seeds := []string{"/a/{b}/c", "/*{w}/x", "a.b/c", "{h}.b/{x}", "/a*{w}", "a-1.b/", "/{x}/*{y}/z", "/a/b", "ab.{c}.d/e/*{f}", "/{ab}/c{d}"}
-	r.Bounds["bytes"] = fmt.Sprintf("every 1- and 2-byte string over all 256 byte values (prefixed with nothing and with '/'), and every single-byte substitution (256 values) at every position of %d seed patterns; hostname labels of 61..66 bytes and hostnames of 250..260 bytes in 7 arrangements of letters, digits, hyphens and underscores", len(seeds))
+	r.Bounds["bytes"] = fmt.Sprintf("every 1- and 2-byte string over all 256 byte values (prefixed with nothing and with '/'), and every single-byte substitution (256 values) at every position of %d seed patterns; hostname labels of 61..66 bytes and hostnames of 250..260 bytes in 7 arrangements of letters, digits, hyphens and underscores; patterns with 65534..131072 wildcards (3 shapes) against the parameter limits 65534, 65535 and the default", len(seeds))
 	f := router(limits{-1, -1})
 	try := func(s string) {
 		r.Evaluations++
@@ -364,6 +418,23 @@ func runBytes(c *mc.Ctx, r *mc.Result) {
 			}
 		}
 	}
+	// the parameter-count limit at the width of its type
+	bigN := []int{65534, 65535, 65536, 65537, 131071, 131072}
+	for bi, n := range bigN {
+		for shape := 0; shape < 3; shape++ {
+			for li, l := range []limits{{-1, -1}, {65535, -1}, {65534, -1}} {
+				if !c.Mine(bi*9 + shape*3 + li) {
+					continue
+				}
+				class, msg := evalBig(n, shape, l)
+				r.Evaluations++
+				r.DistinctNontrivial++
+				if class != "" {
+					r.Violate("bytes", class, msg, Case{Big: n, BigShape: shape, Lim: l})
+				}
+			}
+		}
+	}
 	for _, sd := range seeds {
 		for pos := 0; pos < len(sd); pos++ {
 			idx++
@@ -384,6 +455,10 @@ func replay(c *mc.Ctx, raw json.RawMessage) string {
 	var cs Case
 	if err := json.Unmarshal(raw, &cs); err != nil {
 		return "bad case"
+	}
+	if cs.Big > 0 {
+		_, msg := evalBig(cs.Big, cs.BigShape, cs.Lim)
+		return msg
 	}
 	s := string(cs.Pattern)
 	_, acc, class, msg := checkAccept(router(cs.Lim), s, cs.Lim)
